@@ -17,7 +17,7 @@ REQUIRED_FEATURES = ["empty_row", "zero_rows", "column_left", "column_right", "s
                      "sign_bit_column", "unary", "operator_form", "undefined_reference", "scalar_alphabet"]
 BOUNDS = {"quick": "LV(3,2) (40 shapes) x 9x9 dtype pairs x 19 binary ufuncs x {same-shape ragged, numpy scalar L/R, 0-d array L/R, "
                    "(n,1) ndarray L/R} + Python int/float/bool L/R + (n,1) list-of-lists L/R + 3 mismatching ragged operands "
-                   "+ 7 unary ufuncs + 17 Python operators",
+                   "+ 7 unary ufuncs + 17 Python operators; scalar alphabet {0,1,2,-1,2.0,0.5,1.0,False} as Python and as numpy scalars of 6 types x both sides x every binary ufunc / 6 operators; unary plus and abs(); one 16-row array for 3 dtypes",
           "thorough": "LV(4,2) u LV(3,3), same alphabets, two value patterns for the second operand"}
 
 BINARY = ["add", "subtract", "multiply", "true_divide", "floor_divide", "power", "maximum", "minimum", "equal", "not_equal",
